@@ -81,6 +81,10 @@ func c20Values[V any](out *Out, tier string, caseID *int, ty string, gen func(i 
 		for i := range vs {
 			vs[i] = gen(i)
 		}
+		if n > 1 && ty != "rune" {
+			var zero V
+			vs[1] = zero // 0, 0.0, "", false, nil: legitimate values that "look undefined"
+		}
 		seq := func() col.Sequential[V] { return col.List[V](notation).MakeFromArray(vs) }
 		items := anyItems(vs)
 		dataJ := make([]any, len(items))
@@ -182,10 +186,17 @@ func c20Keyed[K comparable, V any](out *Out, tier string, caseID *int, ty string
 		as := make([]col.AssociationLike[K, V], n)
 		gm := map[K]V{}
 		var items []any
+		val := func(i int) V {
+			if i == 1 && ty != "rune,bool" {
+				var zero V
+				return zero // a zero / empty / nil value is a value
+			}
+			return genV(i)
+		}
 		for i := range as {
-			as[i] = col.Association[K, V](notation).Make(genK(i), genV(i))
-			gm[genK(i)] = genV(i)
-			items = append(items, col.Association[any, any](notation).Make(genK(i), genV(i)))
+			as[i] = col.Association[K, V](notation).Make(genK(i), val(i))
+			gm[genK(i)] = val(i)
+			items = append(items, col.Association[any, any](notation).Make(genK(i), val(i)))
 		}
 		seq := func() col.Sequential[col.AssociationLike[K, V]] {
 			return col.List[col.AssociationLike[K, V]](notation).MakeFromArray(as)
@@ -193,7 +204,7 @@ func c20Keyed[K comparable, V any](out *Out, tier string, caseID *int, ty string
 		src := func(ctx string) string {
 			c := col.Catalog[any, any](notation).Make()
 			for i := range as {
-				c.SetValue(genK(i), genV(i))
+				c.SetValue(genK(i), val(i))
 			}
 			text := notation.FormatValue(c)
 			return text[:len(text)-len("(Catalog)\n")] + "(" + ctx + ")\n"
@@ -230,8 +241,28 @@ func c20Keyed[K comparable, V any](out *Out, tier string, caseID *int, ty string
 		facadeLine(out, *caseID, "Catalog", "none", ty, 0, np, func() any { return mod.Catalog[K, V](withNotation(np)...) }, func() any { return col.Catalog[K, V](notation).Make() }, nil)
 		*caseID++
 		facadeLine(out, *caseID, "Map", "none", ty, 0, np, func() any { return mod.Map[K, V](withNotation(np)...) }, func() any { return col.Map[K, V](notation).Make() }, nil)
-		for i := 0; i < 3; i++ {
+		for i := 0; i < 7; i++ {
 			k, v := genK(i), genV(i+1)
+			// zero-valued keys and values are legitimate data: all four combinations
+			var zeroK K
+			var zeroV V
+			switch i {
+			case 3:
+				k = zeroK
+			case 4:
+				v = zeroV
+			case 5:
+				k, v = zeroK, zeroV
+			case 6:
+				if kv, ok := any(v).(K); ok {
+					if vk, ok2 := any(k).(V); ok2 {
+						k, v = kv, vk // swapped roles when the types allow it
+					}
+				}
+			}
+			if any(k) == nil || any(v) == nil {
+				continue // an untyped nil cannot be told from a missing argument
+			}
 			*caseID++
 			var args []any
 			for _, a := range withNotation(np, k, v) {
@@ -260,13 +291,19 @@ func runC20(tier string, seed int64, out *Out) {
 	c20Values(out, tier, &caseID, "rune", func(i int) rune { return rune('a' + ((i+z)*5)%26) })
 	c20Values(out, tier, &caseID, "bool", func(i int) bool { return (i+z)%3 == 0 })
 	c20Values(out, tier, &caseID, "any", func(i int) any {
-		switch (i + z) % 4 {
+		switch (i + z) % 7 {
 		case 0:
 			return int64(i)
 		case 1:
 			return fmt.Sprintf("x%d", i)
 		case 2:
 			return nil
+		case 3:
+			return "" // defined, although it looks empty
+		case 4:
+			return false
+		case 5:
+			return int64(0)
 		}
 		return float64(i) + 0.5
 	})
